@@ -25,7 +25,7 @@ const char *outcome_name(int o)
 }
 
 static const char *seam_names[S_N] = {"any", "fopen", "fread", "fwrite", "fclose", "ftrunc", "stat", "access",
-	"fork", "pwrite", "pread", "poll", "wait", "ttyw"};
+	"fork", "pwrite", "pread", "poll", "wait", "ttyw", "cpoll"};
 const char *seam_name(int s) { return s >= 0 && s < S_N ? seam_names[s] : "?"; }
 int seam_id(const std::string &s)
 {
@@ -285,7 +285,19 @@ static std::string run_program(SChild &c, const std::string &in)
 	case P_SORT: std::stable_sort(ln.begin(), ln.end()); return join_lines(ln);
 	case P_UNIQ: { std::vector<std::string> u; for (auto &l : ln) if (u.empty() || u.back() != l) u.push_back(l); return join_lines(u); }
 	case P_TAC: std::reverse(ln.begin(), ln.end()); return join_lines(ln);
-	case P_REV: for (auto &l : ln) std::reverse(l.begin(), l.end()); return join_lines(ln);
+	case P_REV:	// by characters, as rev(1) does in a UTF-8 locale (a byte-wise reversal would hand the editor invalid UTF-8)
+		for (auto &l : ln) {
+			std::string o2;
+			size_t i = l.size();
+			while (i > 0) {
+				size_t j = i - 1;
+				while (j > 0 && ((unsigned char) l[j] & 0xc0) == 0x80) j--;
+				o2.append(l, j, i - j);
+				i = j;
+			}
+			l = o2;
+		}
+		return join_lines(ln);
 	case P_WCL: { long n = 0; for (char ch : in) n += ch == '\n'; return std::to_string(n) + "\n"; }
 	case P_SED_DUP: for (auto &l : ln) { o += l; o += '\n'; o += l; o += '\n'; } return o;
 	default: return in;
@@ -1003,6 +1015,11 @@ int sim_poll(struct pollfd *pf, unsigned long n, int timeout)
 	const Fault *f;
 	int eintr = K.tick(S_POLL, &f);
 	if (f && f->effect == "eintr") { K.fired["poll:eintr"]++; eintr = 1; }
+	if (n > 1) {	// the child-process loop's poll (the terminal prompt polls one fd)
+		const Fault *g = K.fault_for(S_CPOLL);
+		K.seam_cnt[S_CPOLL]++;
+		if (g && g->effect == "eintr") { K.fired["cpoll:eintr"]++; eintr = 1; }
+	}
 	if (eintr) {
 		K.probe("poll_eintr");
 		K.ev("poll", -EINTR, 0);
